@@ -2,6 +2,7 @@
 # usage: sweep.sh <seed> <props...>   thorough tier, separate work dir, no evidence
 seed=$1; shift
 export VERIF_WORK=work-sweep
+export VERIF_REPO=${SWEEP_REPO:-/repo}
 cd /verif
 for p in "$@"; do
   start=$(date +%s)
